@@ -401,6 +401,28 @@ func c13Run(c c13Case, st *fw.Stats) []fw.Viol {
 				add("options:accepted-after-route", fmt.Sprintf("WithOptions after GET(%q) was accepted", p))
 			}
 		}
+		// an option function applied DIRECTLY (not through WithOptions) after routes exist: the call may be rejected, but
+		// if it is not, the definitions accepted earlier must still be matched without a panic
+		direct := []struct {
+			name string
+			opt  func(*rux.Router)
+		}{{"EnableCaching", rux.EnableCaching}, {"CachingWithNum(2)", rux.CachingWithNum(2)}, {"MaxNumCaches(1)", rux.MaxNumCaches(1)}, {"StrictLastSlash", rux.StrictLastSlash},
+			{"UseEncodedPath", rux.UseEncodedPath}, {"HandleFallbackRoute", rux.HandleFallbackRoute}, {"HandleMethodNotAllowed", rux.HandleMethodNotAllowed}, {"InterceptAll(/d/1)", rux.InterceptAll("/d/1")}}
+		for _, d := range direct {
+			st.Evals++
+			r := rux.New(opts...)
+			r.GET("/s", c13Noop)
+			r.GET("/d/{id}", c13Noop)
+			r.GET("/o[/{x}]", c13Noop)
+			if pv := try(func() { d.opt(r) }); pv != nil {
+				continue // rejected at the call: fine
+			}
+			c13Lookups(r, []string{"/s", "/d/1", "/d/1/", "/o", "/o/2", "/zz"}, fmt.Sprintf("routes /s, /d/{id}, /o[/{x}] on a router (options mask %d) whose option %s was then applied by calling the option function directly", c.Opts, d.name), st, add)
+			// ... and a route registered after that is matched too
+			if pv := try(func() { r.GET("/late/{y}", c13Noop) }); pv == nil {
+				c13Lookups(r, []string{"/late/1", "/d/1"}, fmt.Sprintf("route /late/{y} registered after option %s was applied directly (options mask %d)", d.name, c.Opts), st, add)
+			}
+		}
 		// a router without routes, any option combination: lookups are total
 		r := rux.New(opts...)
 		c13Lookups(r, c13ShortPaths[:40], fmt.Sprintf("router without routes (options mask %d)", c.Opts), st, add)
